@@ -23,6 +23,7 @@ EXPLANATION = (
     "frozen. That real firmware refuses what the oracle refuses is assumed."
     " (R4) if sensors() remembers its result, every method that changes an attribute it reads (other than the memo's key) drops the memo on every path."
     ' (R5, shared with C11.R2) _map_response stores an entry for every row on every path; (R6, shared with C08.R3) the fallback tests compare the rejection message with a reason text the validators produce.'
+    ' (R0) a sensor table is a re-iterable container: a generator expression or a bare filter / map object stored in self._sensors* is consumed by the first decode, sensors() then lacks the block.'
 )
 
 
